@@ -24,3 +24,19 @@ func VerifLifecycleExpiry(c Controller, k *btcec.PublicKey) (uint32, bool) {
 	e, ok := w.expirations[key]
 	return e, ok
 }
+
+// VerifLifecycleHasCancel reports whether the controller holds a cancel handle
+// of the given kind for the account.
+func VerifLifecycleHasCancel(c Controller, k *btcec.PublicKey, conf bool) bool {
+	ctl := c.(*controller)
+	var key [33]byte
+	copy(key[:], k.SerializeCompressed())
+	ctl.cancelMtx.Lock()
+	defer ctl.cancelMtx.Unlock()
+	if conf {
+		_, ok := ctl.confCancels[key]
+		return ok
+	}
+	_, ok := ctl.spendCancels[key]
+	return ok
+}
